@@ -315,8 +315,10 @@ pub(crate) fn compare<S: HK>(c: &C<S>, e: &G, nkeys: usize) {
                         chk!(ent.last_accessed().is_none(), "C06: last_accessed set without expiry");
                     }
                     if e.has_ttl {
+                        chk!(ent.write_order_q_node().is_some(), "C08,C05,C11: resident without write-order node although ttl is set (it never expires by ttl, and the next update of the key unwraps a None in move_to_back_wo)");
                         chk!(ent.last_modified() == Some(inst(e.lm[k])), "C05: last_modified differs from the model (only insert/update write it)");
                     } else {
+                        chk!(ent.write_order_q_node().is_none(), "C08,C05: write-order node without ttl");
                         chk!(ent.last_modified().is_none(), "C05: write-order node without ttl");
                     }
                     match ent.access_order_q_node() {
